@@ -62,7 +62,7 @@ def floors(tier):
     return {'evaluations': 2000, 'distinct_nontrivial': 20000, 'legacy_calls_compared': 100000,
             'spelling_parses_compared': 15000, 'histkeys:method': 11, 'histkeys:spelling': 8,
             'histkeys:argspec': 121, 'k4_witness_checked': 1, 'optarg_views_checked': 2000,
-            'hist:call_context:bracket': 300, 'hist:call_context:math': 100}
+            'histkeys:env_is_math_mode': 3, 'hist:call_context:bracket': 300, 'hist:call_context:math': 100}
 
 
 def setup(rec):
@@ -391,12 +391,21 @@ def macro_spellings(argspec):
     return sp
 
 
-def env_spellings(argspec):
+def env_spellings(argspec, mode=None):
+    """Spellings of an environment E with the given argument string; mode = the legacy is_math_mode keyword
+    (None: not given, False, True).  The pylatexenc-3 equivalent of is_math_mode=True is a body delta entering
+    math mode; None and False both mean a text-mode body."""
+    from pylatexenc.latexnodes import ParsingStateDeltaEnterMathMode
+    kw = {} if mode is None else {'is_math_mode': mode}
+    newkw = {'body_parsing_state_delta': ParsingStateDeltaEnterMathMode()} if mode else {}
     return {
-        'env-new': lambda: EnvironmentSpec('E', argspec),
-        'env-args_parser=str': lambda: EnvironmentSpec('E', args_parser=argspec),
-        'env-args_parser=MSAP': lambda: EnvironmentSpec('E', args_parser=MacroStandardArgsParser(argspec)),
-        'std_environment': lambda: std_environment('E', argspec),
+        'env-new': lambda: EnvironmentSpec('E', argspec, **newkw),
+        'env-args_parser=str': lambda: EnvironmentSpec('E', args_parser=argspec, **kw),
+        'env-args_parser=MSAP': lambda: EnvironmentSpec('E', args_parser=MacroStandardArgsParser(argspec), **kw),
+        'std_environment': lambda: std_environment('E', argspec, **kw),
+        'std_macro(make_environment_spec)': lambda: std_macro('E', argspec, make_environment_spec=True,
+                                                               environment_is_math_mode=mode),
+        'env-new+is_math_mode': lambda: EnvironmentSpec('E', argspec, **kw),
     }
 
 
@@ -470,8 +479,10 @@ def check_specs(argspec, calls, rng, rec):
     errs = []
     rec.hist('argspec', argspec or '(empty)')
     msp = macro_spellings(argspec)
-    esp = env_spellings(argspec)
     for ci in range(calls):
+        emode = (None, False, True)[(ci // 4) % 3]
+        esp = env_spellings(argspec, emode)
+        rec.hist('env_is_math_mode', str(emode))
         wellformed = ci % 3 != 0
         s = gen_call(rng, argspec, wellformed, legacy_safe=True)
         # the call directly inside a bracket group (whose contents state carries the extra group delimiters while the
@@ -493,7 +504,9 @@ def check_specs(argspec, calls, rng, rec):
                 if name == 'args_parser=str':
                     env = esp['env-args_parser=str']()
                 if name.startswith('std_macro'):
-                    env = esp['std_environment']()
+                    env = esp['std_environment']() if 'numargs' not in name else esp['std_macro(make_environment_spec)']()
+                if name == 'std_macro((name,argspec))':
+                    env = esp['env-new+is_math_mode']()
                 got = parse_with_spec(s, mk(), env, tol)
                 rec.monitor('spelling_parses_compared')
                 rec.hist('spelling', name)
